@@ -120,7 +120,6 @@ structure Sim (cfg : Cfg) (d : RState) (m : Mon) : Prop where
   stateful : cfg.stateless = false
   now : m.now = d.st.now
   faults : m.faults = d.st.faults
-  zomb : m.zombies = []
   nslow : m.nslow = d.nslow
   nasync : m.nasync = d.nasync
   mnodup : (m.tbl.map (·.name)).Nodup
@@ -137,7 +136,6 @@ structure SimSL (cfg : Cfg) (d : RState) (m : Mon) : Prop where
   inv : Inv d.st
   stateless : cfg.stateless = true
   faults : m.faults = d.st.faults
-  zomb : m.zombies = []
   mtbl : m.tbl = []
   mpend : m.pend = []
   mrun : m.run = []
